@@ -96,6 +96,7 @@ func (s *Script) Check(funcsCheck map[string]FuncCheck) *errchain.PlError {
 
 func RunStmts(ctx *Task, nodes ast.Stmts) *errchain.PlError {
 	for _, node := range nodes {
+		verifStep(ctx, 1)
 		if _, _, err := RunStmt(ctx, node); err != nil {
 			ctx.procExit = true
 			return err
@@ -197,6 +198,7 @@ func RunForStmt(ctx *Task, stmt *ast.ForStmt) (any, ast.DType, *errchain.PlError
 	}
 
 	for {
+		verifStep(ctx, 2)
 		if stmt.Cond != nil {
 			val, dtype, err := RunStmt(ctx, stmt.Cond)
 			if err != nil {
@@ -260,6 +262,7 @@ func RunForInStmt(ctx *Task, stmt *ast.ForInStmt) (any, ast.DType, *errchain.PlE
 				"inner type error", stmt.Iter.StartPos())
 		}
 		for _, x := range iter {
+			verifStep(ctx, 2)
 			char := string(x)
 			if stmt.Varb.NodeType != ast.TypeIdentifier {
 				return nil, ast.Invalid, err
@@ -287,6 +290,7 @@ func RunForInStmt(ctx *Task, stmt *ast.ForInStmt) (any, ast.DType, *errchain.PlE
 				"inner type error", stmt.Iter.StartPos())
 		}
 		for x := range iter {
+			verifStep(ctx, 2)
 			ctx.stackCur.Clear()
 			_ = ctx.SetVarb(stmt.Varb.Identifier().Name, x, ast.String)
 			if stmt.Body != nil {
@@ -309,6 +313,7 @@ func RunForInStmt(ctx *Task, stmt *ast.ForInStmt) (any, ast.DType, *errchain.PlE
 				"inner type error", stmt.Iter.StartPos())
 		}
 		for _, x := range iter {
+			verifStep(ctx, 2)
 			ctx.stackCur.Clear()
 			x, dtype := ast.DectDataType(x)
 			if dtype == ast.Invalid {
@@ -363,6 +368,7 @@ func RunContinueStmt(ctx *Task, stmt *ast.ContinueStmt) (any, ast.DType, *errcha
 
 // RunStmt for all expr.
 func RunStmt(ctx *Task, node *ast.Node) (any, ast.DType, *errchain.PlError) {
+	verifStep(ctx, 0)
 	// TODO
 	// 存在个别 node 为 nil 的情况
 	if node == nil {
